@@ -1,9 +1,10 @@
 """C05 — queries return exactly the matching events, newest first, newest-k under limit."""
 from ._store import run_store
 
-THEOREMS = ['findEvents_sound', 'findEvents_nip01', 'redacted_sound', 'scrape_gate', 'findEvents_total', 'findEvents_exact', 'plan_independent', 'newest_under_limit', 'answer_characterised']
+THEOREMS = ['findEvents_sound', 'findEvents_nip01', 'redacted_sound', 'scrape_gate', 'findEvents_total', 'findEvents_exact', 'plan_independent', 'newest_under_limit', 'answer_characterised',
+            'index_key_order', 'index_range_bounds', 'tag_index_range_bounds', 'time_index_scan', 'author_index_scan', 'author_kind_index_scan']
 
 
 def run():
     run_store('C05', THEOREMS, """Focus: ~40 filters after every step: every combination class of ids / authors / kinds / tag constraints with one or several letters and values (values taken from stored events and absent ones, multi-letter and empty names), windows incl. inverted, future, 0 and u64::MAX, limits 0,1,2,3,5,unset, screens all-match / by id parity (match, mismatch, redacted) / all-mismatch / all-redacted, scraping allowances; oracle: ValidAnswer of the property text (no duplicates, newest first, all qualifying if they fit the limit else the newest `limit` with ties at the cut free, redacted only if a matching event was screened redacted, refused as scraping only by the stated rule). non-trivial = distinct query with a non-empty valid answer.""",
-              {'query', 'selffind'}, relevant={'FND'}, quick=(30, 25, 14), thorough=(500, 60, 25))
+              {'query', 'selffind'}, relevant={'FND', 'KYS'}, quick=(30, 25, 14), thorough=(500, 60, 25))
